@@ -106,6 +106,11 @@ class Generator(Curve, Point):
         """
         r, s = signature
 
+        if r < 1 or r >= self._p:
+            # r is looked up as an x coordinate: it has to be a field element. (The group order can
+            # exceed p, so an r below the order is not necessarily one.)
+            return []
+
         try:
             points = self.points_for_x(r)
         except ValueError:
